@@ -13,7 +13,9 @@
 (*   EvWake     t                 event.wait() returned       A4           *)
 (*   AcqRet     t, o              acquire() returned/raised   A5           *)
 (*   Body       t, v              critical section ran        CS           *)
-(* Unlogged (silent) steps: A2 when broken, E2, end of E2s loop, R2.       *)
+(*   InnerAcq/InnerRel of the reset() caller "rx"                  X1 / X3   *)
+(*   ResetRet   v = number of successful reset() calls so far               *)
+(* Unlogged (silent) steps: A2 when broken, E2, end of E2s loop, R2, X2.   *)
 (* Every event carries q = len(_waiters) and b = _is_broken after the step.*)
 (***************************************************************************)
 EXTENDS OrderedLock, Json, IOUtils, TLC, TLCExt
@@ -46,7 +48,7 @@ Consume == l' = l + 1 /\ tid' = tid
 Silent == l' = l /\ tid' = tid
 
 TInnerAcq == /\ IsEv("InnerAcq")
-             /\ (A1(Ev.t) \/ E1(Ev.t) \/ R1(Ev.t))
+             /\ IF Ev.t = RX THEN X1 ELSE (A1(Ev.t) \/ E1(Ev.t) \/ R1(Ev.t))
              /\ Proj /\ Consume
 
 TEvNew == /\ IsEv("EvNew")
@@ -61,7 +63,7 @@ TEvSet == /\ IsEv("EvSet")
           /\ Proj /\ Consume
 
 TInnerRel == /\ IsEv("InnerRel")
-             /\ (A3(Ev.t) \/ A3x(Ev.t) \/ E3(Ev.t) \/ R3(Ev.t))
+             /\ IF Ev.t = RX THEN X3 ELSE (A3(Ev.t) \/ A3x(Ev.t) \/ E3(Ev.t) \/ R3(Ev.t))
              /\ Proj /\ Consume
 
 TEvWake == /\ IsEv("EvWake")
@@ -81,7 +83,8 @@ TBody == /\ IsEv("Body")
 \* silent steps (of any thread: e.g. the holder's popleft may precede another thread's logged wake-up)
 SilentStep ==
   /\ l <= Len(Tr)
-  /\ \E t \in Threads :
+  /\ \/ X2
+     \/ \E t \in Threads :
        \/ (pc[t] = "A2" /\ broken /\ A2(t))
        \/ E2(t)
        \/ (pc[t] = "E2s" /\ idx[t] > Len(waiters) /\ E2s(t))
@@ -94,9 +97,14 @@ TIncRet == /\ IsEv("IncRet")
            /\ got[<<Ev.c[1], Ev.c[2]>>] = Ev.v
            /\ UNCHANGED vars /\ Consume
 
+\* reset() returned (o = "ok") or raised OrderedLockError (o = "refused"): no step of the lock; the result must be the model's
+TResetRet == /\ IsEv("ResetRet")
+             /\ rpc = "idle" /\ resetOk = Ev.v
+             /\ UNCHANGED vars /\ Consume
+
 TraceDone == l = Len(Tr) + 1 /\ UNCHANGED tvars
 
-TraceNext == TIncRet \/ TInnerAcq \/ TEvNew \/ TEvSet \/ TInnerRel \/ TEvWake \/ TAcqRet \/ TBody \/ SilentStep \/ TraceDone
+TraceNext == TIncRet \/ TResetRet \/ TInnerAcq \/ TEvNew \/ TEvSet \/ TInnerRel \/ TEvWake \/ TAcqRet \/ TBody \/ SilentStep \/ TraceDone
 
 TraceSpec == TraceInit /\ [][TraceNext]_tvars
 
